@@ -79,7 +79,7 @@ def gen_spec(rng, lo, hi, step):
     if kind == "atTime":
         sp["s"] = gen_time(rng, lo, hi, step)
     elif kind == "atTimes":
-        n = rng.choice((0, 1, 1, 2, 3, 4, 6)) if rng.random() < 0.9 else 0
+        n = rng.choice((1, 1, 2, 3, 4, 6)) if rng.random() < 0.97 else 0
         ss = [gen_time(rng, lo, hi, step) for _ in range(n)]
         if ss and rng.random() < 0.2:
             ss.append(rng.choice(ss))                              # duplicate
@@ -90,7 +90,7 @@ def gen_spec(rng, lo, hi, step):
             a, b = b, a
         sp["s"], sp["e"] = a, b
     elif kind == "ranges":
-        n = rng.choice((0, 1, 2, 2, 3, 4))
+        n = rng.choice((1, 2, 2, 3, 4)) if rng.random() < 0.97 else 0
         rs = []
         for _ in range(n):
             a, b = gen_time(rng, lo, hi, step), gen_time(rng, lo, hi, step)
@@ -101,7 +101,7 @@ def gen_spec(rng, lo, hi, step):
     elif kind == "period":
         sp["d"], sp["imm"], sp["pend"] = gen_delta(rng, step), rng.random() < 0.4, gen_pending(rng, step)
     elif kind == "periods":
-        n = rng.choice((0, 1, 2, 2, 2, 3, 3, 4)) if rng.random() < 0.93 else 0
+        n = rng.choice((1, 2, 2, 2, 3, 3, 4)) if rng.random() < 0.97 else 0
         ds = [gen_delta(rng, step) for _ in range(n)]
         if n >= 2 and rng.random() < 0.5:                          # steer towards coinciding on-grid periods
             ds = [step * rng.randint(1, 5) for _ in range(n)]
